@@ -29,6 +29,15 @@ CHECKS = {
  'C07': dict(cat='model_checking', sec='6 C07',
    text='Brute-force fold modelled in product order with its accumulators and proved equal to the declarative optimum of all nine printed statistics (TLC); real -bf runs compared line by line.',
    tech='TLC model checking (BFEqDef) + replay of -bf runs'),
+ 'C08': dict(cat='model_checking', sec='6 C08',
+   text='MPGen.tla: the generator as a state machine; with tiny counts TLC runs it through EVERY random draw and proves GenWellFormed/GenRoundTrip; the real Generator is run on every legal argument vector of the TLC-enumerated families x seeds and each written file is a trace validated by Trace_Gen.tla (specification reader on the bytes, then the guards of the generator actions clause by clause: counts, numbering, list lengths/distinct/in range, Spread of quotas/targets/projects per lecturer, tie probability 0/1 laws, second-side lists iff two-sided, parameter block); "every length can occur" decided statistically on >= 200 lists.',
+   tech='TLC model checking of MPGen over all draws + trace validation (Trace_Gen.tla) of real generator output'),
+ 'C09': dict(cat='model_checking', sec='6 C09',
+   text='GenRoundTrip model-checked; real Generator output (all four types, TLC-enumerated legal vectors, seeds) is fed to the real Solver with the documented flags, real CBC and -bf; every run is a trace validated by Trace_Pipe.tla which re-reads the bytes with the specification, takes the MPSolver actions and judges loading, status, validity, stability, optimum values, statistics and all brute-force lines.',
+   tech='trace validation (Trace_Pipe.tla) of real generator->solver runs with real CBC'),
+ 'C12': dict(cat='model_checking', sec='6 C12',
+   text='SecondSideOK model-checked over all draws (MPGen.tla); every generated two-sided file validated by Trace_Gen.tla clause second_side_exactly_rankers (each second-side agent lists exactly the first-side agents ranking it / one of its projects, once).',
+   tech='TLC model checking of MPGen + trace validation (Trace_Gen.tla)'),
  'C10': dict(cat='model_checking', sec='6 C10',
    text='TLC renders every family file character by character (three whitespace styles, with/without parameter block, 2/3-agent, lists used/ignored), proves ParseFile(Render(fc)) = Denote(fc), and the loaded Model is compared field by field with the denoted instance.',
    tech='TLC model checking (ReadRender) + replay of rendered bytes into Solver'),
@@ -41,6 +50,15 @@ CHECKS = {
  'C14': dict(cat='fault_enumeration', sec='6 C14',
    text='MC_Faults.tla enumerates, per criteria sequence (1-7 underlying solves incl. per-rank solves), every placement of every back-end failure kind, transient/persistent, all pairs, limit set/unset, duration patterns, and proves the report rule (NoMatchingUnlessAllProven, ShowsFirstBadOrTimeout) on the specification; every plan is replayed into the real code with outcomes injected at COIN_CMD.actualSolve under three leftover-value policies and a virtual clock, over get_results/_short/_long.',
    tech='TLC enumeration of fault plans (MC_Faults.tla) + fault injection at the pulp boundary with a virtual clock'),
+ 'C15': dict(cat='model_checking', sec='6 C15',
+   text='The parser mechanism (required/inapplicable tables, defaults, bound checks with explicit "no value") is proved to refine the declarative acceptance rule on every legal vector and every single-fault perturbation (MC_Gen.tla: ParserOK, FamilySound, RejectBeforeWrite, AcceptWritesAll); every vector is replayed into the real Generator in a fresh location: accepted -> all files, rejected -> SystemExit(2) and nothing written.',
+   tech='TLC model checking of MC_Gen + replay of every argument vector into Generator'),
+ 'C17': dict(cat='model_checking', sec='6 C17',
+   text='Exact rational model (MC_Skew.tla): positive, sum one, arithmetic progression, last = s x first, single agent -> <<1>> for all n <= 12/24 and s = p/q; create_linear_distribution compared with the exported rationals within 1e-9 and the laws re-checked on the floats. TLC adds exact arithmetic; numeric tolerance stated.',
+   tech='TLC exhaustive evaluation of the rational model + numeric comparison with the implementation'),
+ 'C18': dict(cat='model_checking', sec='6 C18',
+   text='MC_Hist.tla: all call sequences over {solve, 4 getters} starting with solve; getters read-only (action property), re-solve reproduces status, values and admissible set; every history replayed on one real Solver object with different tie-breaking per solve (stand-in) and real CBC on a sample; byte-for-byte text stability between solves, same status/values across solves, valid matching, get_debug rows consistent.',
+   tech='TLC model checking of call histories + replay on one Solver object'),
  'C16': dict(cat='model_checking', sec='6 C16',
    text='Slot placement/compaction modelled and proved to refine the declarative order/refusal rule (MC_Options.tla, positions around 1..9, extras, flag order); every command line replayed into Solver(argv) with a missing file (refusal before reading) and on a real instance (parsed order, reported order); order of solves checked semantically on MC_Solver families with permuted flags and gaps.',
    tech='TLC model checking of MC_Options/MC_Solver + replay into Solver(argv)'),
